@@ -407,4 +407,14 @@ theorem gen_tree_uses :
     BagCode.treeUses.lookup "compare.go:compareBag" = some ["alt.Compare(obj.Any, other.Any, ignores)"] ∧
     (BagCode.treeUses.lookup "modify.go:modifyBag").map (·.length) = some 2 := by decide
 
+/-- The functions that touch a bag's tree (and the package functions they call) reach no package-level
+    variable but the flavor (assigned once when the package is loaded) and the converter options
+    (the state Model/JsonConfig.lean models): what `bag-get`, `bag-has`, … answer is a function of the
+    bag's tree and the arguments — no memo, cache or pooled object outlives a call, which is what the
+    heap model of Model/JsonAlias.lean assumes when several bags look at one tree (seeded C18-10: a
+    remembered lookup in get.go). Functions may be added, renamed or split; only a new variable breaks it. -/
+theorem gen_tree_funcs_stateless :
+    BagCode.treeFuncGlobals.all (fun e => e.2.all (fun v => v == "flavor" || v == "options")) = true ∧
+    BagCode.treeFuncGlobals.length ≥ 12 := by decide
+
 end SlipVerif.Json.GenTie
